@@ -77,7 +77,7 @@ def generate(rng, tier):
             for seq in itertools.product(alpha, repeat=d):
                 cases.append({"cap": cap, "ops": number_values(seq), "kind": "exhaustive"})
     # random long sequences at larger capacities
-    nrand, length = (40, 300) if tier == "quick" else (300, 2000)
+    nrand, length = (40, 300) if tier == "quick" else (200, 800)
     for i in range(nrand):
         cap = rng.choice([1, 2, 3, 4, 5, 8, 16, 32, 64])
         nkeys = max(2, int(cap * rng.choice([1.0, 1.5, 2.0, 3.0])))
